@@ -586,4 +586,12 @@ theorem ibmq_refines (mCls : Nat) (P : IBMQParams V) (queue : List NGate)
     rw [decode_block] at this
     exact this
 
+/-- the same for the dictionary as written (string keys, parsed by the model). -/
+theorem ibmq_refines_S (mCls : Nat) (P : IBMQParamsS V) (queue : List NGate)
+    (hq : ∀ g ∈ queue, GateOk mCls g) : ibmqApplyS mCls P queue = ibmqSpecS P queue := by
+  unfold ibmqApplyS ibmqSpecS
+  cases parseParams P with
+  | none => rfl
+  | some Q => exact ibmq_refines mCls Q queue hq
+
 end QV.Noise
